@@ -26,8 +26,18 @@ FIXED = {
     "True", "False", "None",
 }
 
-T_INVOKE = '''
+# the wrapper added by the repair of the invariant re-check: it must hand every argument through unchanged
+T_WRAPPER = '''
 def _invokeSubBehavior(self, agent, subs, modifier=None, schedule=None):
+    self._subInvocationsInProgress += 1
+    try:
+        yield from self._runSubBehavior(agent, subs, modifier, schedule)
+    finally:
+        self._subInvocationsInProgress -= 1
+'''
+
+T_INVOKE = '''
+def _runSubBehavior(self, agent, subs, modifier, schedule):
     def pickEnabledInvocable(opts):
         enabled = {}
         if isinstance(opts, dict):
@@ -53,7 +63,7 @@ def _invokeSubBehavior(self, agent, subs, modifier=None, schedule=None):
         subs = (pickEnabledInvocable(subs),)
     elif schedule == "shuffle":
         if len(subs) == 1 and isinstance(subs[0], dict):
-            subs = subs[0]
+            subs = %s
         else:
             subs = {item: _K_defaultWeightShuffle for item in subs}
 
@@ -79,6 +89,10 @@ def _invokeSubBehavior(self, agent, subs, modifier=None, schedule=None):
     else:
         yield from scheduler()
 '''
+
+# the shuffle scheduler pops the items it has run from `subs`: either from the caller's own dict (the operand of the
+# statement is emptied as a side effect) or from a copy of it
+SHUFFLE_OPERAND = {"subs[0]": False, "dict(subs[0])": True, "subs[0].copy()": True, "{**subs[0]}": True}
 
 T_ENABLED = '''
 def _isEnabledForAgent(self, agent):
@@ -161,9 +175,26 @@ def sampleGiven(self, value):
 
 T_MUX_SAMPLE = '''
 def sampleGiven(self, value):
-    idx = value[self.index]
+    idx = value[self._index]
     assert 0 <= idx < len(self.options), (idx, len(self.options))
     return value[self.options[idx]]
+'''
+
+T_MUX_INIT = '''
+def __init__(self, index, options):
+    self._index = index
+    self.options = tuple(toDistribution(opt) for opt in options)
+    assert len(self.options) > 0
+    valueType = type_support.unifyingType(self.options)
+    super().__init__(index, *self.options, valueType=valueType)
+'''
+
+T_UNIFORM = '''
+def Uniform(*opts):
+    if any(isinstance(opt, StarredDistribution) for opt in opts):
+        return UniformDistribution(opts)
+    else:
+        return Options(opts)
 '''
 
 T_NEW = '''
@@ -215,8 +246,9 @@ def makeDoLike(self, node: ast.AST, elts: List[ast.AST], modifier: Optional[ast.
 
 
 class _Matcher:
-    def __init__(self, what):
+    def __init__(self, what, tlocals=frozenset(), slocals=frozenset()):
         self.what = what
+        self.tlocals, self.slocals = tlocals, slocals
         self.fwd, self.bwd = {}, {}
         self.data = {}
 
@@ -225,7 +257,9 @@ class _Matcher:
         raise TemplateMismatch(f"{self.what}: {msg} (source line {line})")
 
     def name(self, t, s, node):
-        if t in FIXED or s in FIXED:
+        # only names *bound inside* the function (parameters, assigned locals, loop variables, nested defs) may be
+        # renamed; a free name (global, builtin, imported class) must be the same on both sides
+        if t in FIXED or s in FIXED or t not in self.tlocals or s not in self.slocals:
             if t != s:
                 self.fail(f"expected `{t}`, found `{s}`", node)
             return
@@ -302,14 +336,28 @@ def _nodoc(body):
     return out
 
 
+def _bound_names(fn):
+    out = set()
+    for n in ast.walk(fn):
+        if isinstance(n, ast.arg):
+            out.add(n.arg)
+        elif isinstance(n, ast.Name) and isinstance(n.ctx, (ast.Store, ast.Del)):
+            out.add(n.id)
+        elif isinstance(n, (ast.FunctionDef, ast.AsyncFunctionDef)) and n is not fn:
+            out.add(n.name)
+        elif isinstance(n, ast.alias):
+            out.add((n.asname or n.name).split(".")[0])
+    return frozenset(out)
+
+
 def match_template(template, fn, what):
     t = ast.parse(template.strip("\n")).body[0]
-    m = _Matcher(what)
+    m = _Matcher(what, _bound_names(t), _bound_names(fn))
     m.node(t, fn)
     return m.data
 
 
-REFERENCE = {"defaultWeight": 1, "shortcutLen": 1, "shortcutIdx": 0, "dropZero": True}
+REFERENCE = {"defaultWeight": 1, "shortcutLen": 1, "shortcutIdx": 0, "dropZero": True, "copyOperand": False}
 
 
 def extract():
@@ -331,11 +379,21 @@ def extract():
             mismatches.append(str(e))
 
     def invoke():
-        d = match_template(T_INVOKE, get_def(inv, "Invocable._invokeSubBehavior", INVOCABLES), "_invokeSubBehavior")
+        fn = get_def(inv, "Invocable._runSubBehavior", INVOCABLES)
+        first = None
+        for expr, copies in SHUFFLE_OPERAND.items():
+            try:
+                d = match_template(T_INVOKE % expr, fn, "_runSubBehavior")
+                break
+            except TemplateMismatch as e:
+                first = first or e
+        else:
+            raise first
         if d["defaultWeight"] != d["defaultWeightShuffle"]:
-            raise TemplateMismatch(f"_invokeSubBehavior: tuple-form weight is {d['defaultWeight']} for choose but "
+            raise TemplateMismatch(f"_runSubBehavior: tuple-form weight is {d['defaultWeight']} for choose but "
                                    f"{d['defaultWeightShuffle']} for shuffle")
-        data.update(defaultWeight=d["defaultWeight"], shortcutLen=d["shortcutLen"], shortcutIdx=d["shortcutIdx"])
+        data.update(defaultWeight=d["defaultWeight"], shortcutLen=d["shortcutLen"], shortcutIdx=d["shortcutIdx"],
+                    copyOperand=copies)
 
     def options():
         opt_init = get_def(dist, "Options.__init__", DISTRIBUTIONS)
@@ -349,7 +407,9 @@ def extract():
             except TemplateMismatch:
                 raise first
 
-    attempt("Invocable._invokeSubBehavior", invoke)
+    attempt("Invocable._runSubBehavior", invoke)
+    attempt("Invocable._invokeSubBehavior", lambda: match_template(
+        T_WRAPPER, get_def(inv, "Invocable._invokeSubBehavior", INVOCABLES), "_invokeSubBehavior"))
     attempt("Invocable._isEnabledForAgent", lambda: match_template(
         T_ENABLED, get_def(inv, "Invocable._isEnabledForAgent", INVOCABLES), "_isEnabledForAgent"))
     attempt("Options.__init__", options)
@@ -357,7 +417,9 @@ def extract():
             ("Options.makeSelector", T_SELECTOR, dist, "Options.makeSelector", DISTRIBUTIONS),
             ("DiscreteRange.__init__", T_DR_INIT, dist, "DiscreteRange.__init__", DISTRIBUTIONS),
             ("DiscreteRange.sampleGiven", T_DR_SAMPLE, dist, "DiscreteRange.sampleGiven", DISTRIBUTIONS),
+            ("MultiplexerDistribution.__init__", T_MUX_INIT, dist, "MultiplexerDistribution.__init__", DISTRIBUTIONS),
             ("MultiplexerDistribution.sampleGiven", T_MUX_SAMPLE, dist, "MultiplexerDistribution.sampleGiven", DISTRIBUTIONS),
+            ("Uniform", T_UNIFORM, dist, "Uniform", DISTRIBUTIONS),
             ("Distribution.__new__", T_NEW, dist, "Distribution.__new__", DISTRIBUTIONS),
             ("visit_DoChoose", T_VISIT_CHOOSE, comp, "visit_DoChoose", COMPILER),
             ("visit_DoShuffle", T_VISIT_SHUFFLE, comp, "visit_DoShuffle", COMPILER),
@@ -375,7 +437,8 @@ namespace Scenic.Gen
 /-- constants read from `_invokeSubBehavior.pickEnabledInvocable` / the shuffle branch / `Options.__init__`
 (reference values for a function whose shape did not match its template on this run) -/
 def chooseConfig : Scenic.Choose.Config :=
-  {{ defaultWeight := {d['defaultWeight']}, shortcutLen := {d['shortcutLen']}, shortcutIdx := {d['shortcutIdx']}, dropZero := {str(d['dropZero']).lower()} }}
+  {{ defaultWeight := {d['defaultWeight']}, shortcutLen := {d['shortcutLen']}, shortcutIdx := {d['shortcutIdx']}, dropZero := {str(d['dropZero']).lower()},
+    copyOperand := {str(d['copyOperand']).lower()} }}
 /-- functions whose statement-by-statement shape matched the model's template on this run (informational) -/
 def chooseMatchedShapes : List String := [{shapes}]
 end Scenic.Gen
